@@ -13,7 +13,7 @@ NONE = "__none__"
 XS = "http://www.w3.org/2001/XMLSchema"
 XSI = "http://www.w3.org/2001/XMLSchema-instance"
 U = 9
-BUILTIN = {"int", "string", "boolean", "decimal", "date"}
+BUILTIN = {"int", "long", "string", "boolean", "decimal", "date"}
 # pseudo types of Schema.tla: a built-in type plus a value constraint on the element declaration
 VALUE_CONSTRAINED = {"FixedStr": ("string", ' fixed="kg"'), "DefInt": ("int", ' default="7"')}
 
@@ -129,7 +129,7 @@ def doc_xml(s, doc) -> str:
 def vs(tp: str, text: str):
     t = text.strip()
     try:
-        if tp in ("int", "DefInt"):
+        if tp in ("int", "long", "DefInt"):
             return ("int", int(t))
         if tp == "boolean":
             return ("bool", t in ("true", "1"))
